@@ -1,5 +1,7 @@
 """C15 - Douglas: masked features inert, valid soft bins, active points as defined (structural clauses)."""
 import ast
+
+from ..e6_algebra import to_rat, Rat, Poly, NotScalarArithmetic
 import itertools
 
 from ..pm import AnalysisError, norm_src, func_params
@@ -202,6 +204,34 @@ def run(pm, ctx):
     # ------------------------------------------------------------------ c
     o = expect_assign(ctx, "C15-c", u, "Douglas._leaf_binning", lb, "order", ["np.argsort(cut_points)"], "Douglas._leaf_binning: order", "the cuts are not sorted in ascending order")
     sc = expect_assign(ctx, "C15-c", u, "Douglas._leaf_binning", lb, "sorted_cut_points", ["cut_points[order]"], "Douglas._leaf_binning: sorted cuts", "the biases are not built from the sorted cuts")
+    # slopes of the bin logits: consecutive bins must differ by exactly x, so that (with the cumulative biases) bin k beats bin k-1 iff
+    # x exceeds the k-th smallest cut: slopes 1, 2, ..., n+1 (any start, unit step)
+    wdef = [s_ for s_ in ast.walk(lb) if isinstance(s_, ast.Assign) and norm_src(s_.targets[0]) == "W"]
+    site = "Douglas._leaf_binning: slopes"
+    if not wdef:
+        ctx.unrecognised("C15-c", site, "no slope vector W")
+    else:
+        calls = [c for c in ast.walk(wdef[0].value) if isinstance(c, ast.Call) and (call_name(c) or "").split(".")[-1] in ("linspace", "arange")]
+        okw = None
+        if len(calls) == 1:
+            c = calls[0]
+            kind = (call_name(c) or "").split(".")[-1]
+            try:
+                if kind == "linspace" and len(c.args) >= 3:
+                    a0, a1, a2 = (to_rat(x) for x in c.args[:3])
+                    okw = (a1 - a0).equals(a2 - Rat(Poly.const(1))) and a2.equals(to_rat(ast.parse("n + 1", mode="eval").body))
+                elif kind == "arange" and len(c.args) == 2:
+                    a0, a1 = (to_rat(x) for x in c.args[:2])
+                    okw = (a1 - a0).equals(to_rat(ast.parse("n + 1", mode="eval").body))
+            except NotScalarArithmetic:
+                okw = None
+        if okw is True:
+            ctx.ok("C15-c", site, "n + 1 slopes with unit step")
+        elif okw is False:
+            ctx.violation("C15-c", u.relpath, "Douglas._leaf_binning", norm_src(wdef[0]), "the slopes of consecutive bins do not differ by exactly 1 (or are not n+1 many): the bin "
+                          "boundaries no longer sit on the cut points", line=wdef[0].lineno, site=site)
+        else:
+            ctx.unrecognised("C15-c", site, norm_src(wdef[0])[:80])
     bdef = [s_ for s_ in ast.walk(lb) if isinstance(s_, ast.Assign) and norm_src(s_.targets[0]) == "b"]
     site = "Douglas._leaf_binning: biases"
     if not bdef:
@@ -336,4 +366,5 @@ def controls(pm, tier):
     mut("        leaf_binning = lambda z: self._leaf_binning(X[:, z[0]:z[0] + 1], z[1])", "        leaf_binning = lambda z: self._leaf_binning(X[:, z[0]:z[0] + 1] + 0 * X.sum(1, keepdims=True), z[1])", "C15-a", "all columns leak into every bin")
     mut("            num_leaf = int((self.n_cuts + 1) ** len(self.cut_points_list_))", "            num_leaf = int((self.n_cuts + 1) ** X.shape[1])", "C15-b", "masked model sized for all features")
     mut("        sorted_cut_points = cut_points[order]", "        sorted_cut_points = cut_points", "C15-c", "biases from unsorted cuts")
+    mut("        W = np.expand_dims(np.linspace(1, n + 1, n + 1, dtype=np.float64), axis=0)", "        W = np.expand_dims(np.linspace(0, n + 1, n + 1, dtype=np.float64), axis=0)", "C15-c", "slopes start at 0 with a non-unit step")
     return out
